@@ -41,6 +41,14 @@ CLAIMED["C03"] = (
     "Not decided: minimality per invocation over all histories.",
     "Trusted: rustc nightly MIR; the frozen anchors in engine/qbv/rules/C03.py.")
 
+CLAIMED["C06"] = (
+    "MIR dominance and loop-form must-pass-through on the cycle-detection protocol, branch-polarity rules on the SCC flag",
+    "Decides: wait-for edge registered before the first probe and before any wait; a probe at the head of every retry iteration; probe before wait in exit_scc; "
+    "SCC flag marked before CyclicError, error exactly on the cyclic branch; final SCC check before every Ok return; the probe marks the found path and visits all "
+    "callees; execute_query substitutes the cycle default exactly in-SCC and resumes a caught panic exactly outside; only TrackedEngine::query raises the cyclic payload "
+    "and it caches Ok values only. Not decided: termination / values for all graphs.",
+    "Trusted: rustc nightly MIR; scc::HashMap insert visibility; the frozen anchors in engine/qbv/rules/C06.py.")
+
 NOT_YET = "check under construction in this round (DESIGN.md section 5 lists its clauses); not claimed until its rules are armed and self-tested"
 
 checks = []
